@@ -238,7 +238,9 @@ func Gen(r *sim.Rng, kind string) (*sim.WorldSpec, *Meta) {
 	setup.WriteString(getterText("LS", "PlainB", "LS.PlainB", false, getBPtr, "B"))
 
 	var hooksPkg strings.Builder
-	hooksPkg.WriteString("package hooks\n\nimport (\n\t\"example.com/g/md\"\n\t\"example.com/g/ms\"\n\t\"example.com/g/rt\"\n)\n\nvar _ = rt.Snap\n\n")
+	hooksPkg.WriteString("package hooks\n\nimport (\n\t\"fmt\"\n\n\t\"example.com/g/md\"\n\t\"example.com/g/ms\"\n\t\"example.com/g/rt\"\n)\n\nvar _ = rt.Snap\n\n")
+	hooksPkg.WriteString(strings.ReplaceAll(stubText(convStub{"CD", "int", "string", true}, "rt"), `"CD"`, `"hooks.CD"`))
+	hooksPkg.WriteString(strings.ReplaceAll(stubText(convStub{"PD", "int", "string", false}, "rt"), `"PD"`, `"hooks.PD"`))
 	var localHooks strings.Builder
 
 	pickCap := func(retErr bool, c, p string) (string, bool) {
@@ -330,6 +332,10 @@ func Gen(r *sim.Rng, kind string) (*sim.WorldSpec, *Meta) {
 		}
 		if slot(40) {
 			f, c := pickCap(mm.RetErr, "cD", "pD")
+			if useHooksPkg && r.Bool() {
+				// a converter that lives in the blank-imported package
+				f, c = pickCap(mm.RetErr, "hooks.CD", "hooks.PD")
+			}
 			notes = append(notes, ":conv "+f+" D")
 			capable[f] = c
 		}
